@@ -123,6 +123,9 @@ func (f *Metrics) GlyphList() []string {
 
 func (f *Metrics) FontBBoxPDF() (bbox rect.Rect) {
 	for _, g := range f.Glyphs {
+		if g == nil {
+			continue
+		}
 		bbox.Extend(g.BBox)
 	}
 	return bbox
